@@ -124,10 +124,12 @@ Proof.
   destruct e; try contradiction.
   - (* LAlloc *)
     destruct (n =? 0) eqn:En; [constructor; auto|]. apply N.eqb_neq in En.
+    destruct (alloc_refused s n); [constructor; auto|].
     unfold l_alloc. rewrite Hn. cbn [N.eqb negb add_present].
     repeat split; cbn; auto; try lia.
   - (* LAllocCrash *)
     destruct (n =? 0) eqn:En; [constructor; cbn; auto; discriminate|]. apply N.eqb_neq in En.
+    cbn [orb]. destruct (alloc_refused s n); [constructor; cbn; auto; discriminate|].
     unfold l_alloc. rewrite Hn. cbn [N.eqb negb fst l_down].
     constructor; cbn; auto; try discriminate.
     unfold l_pr in *. destruct k as [|[|k]]; cbn; try lia.
@@ -229,6 +231,7 @@ Proof.
   destruct e; try discriminate.
   - (* LAlloc *)
     destruct (n =? 0) eqn:En; [cbn; split; [constructor; auto|lia]|]. apply N.eqb_neq in En.
+    destruct (alloc_refused s n); [cbn; split; [constructor; auto|lia]|].
     unfold l_alloc. rewrite Hn. cbn [N.eqb negb fst add_present].
     split; [|cbn; lia]. constructor; cbn; auto.
     + intros v0 x Hin. apply In_aset in Hin as [E|Hin]; [inversion E; lia|]. specialize (Hmv _ _ Hin). lia.
@@ -307,18 +310,34 @@ Proof. constructor; cbn; auto; intros; contradiction. Qed.
 
 (* label_fresh: in one process lifetime, once every goroutine fired by an acknowledged ingest has
    run, the next allocation is above every label present in the volume at any version *)
-Lemma label_fresh_live evs v n : forallb live_event evs = true -> n <> 0 ->
+Lemma label_fresh_live evs v n : forallb live_event evs = true ->
   let s := fst (lrun l_fresh evs) in
   l_pending s = [] ->
-  exists b e, snd (lstep s (LAlloc v n)) = Some (b, e) /\ forall l, In l (l_present s) -> l < b.
+  forall b e, snd (lstep s (LAlloc v n)) = Some (b, e) ->
+  b <= e /\ e <= max_label /\ forall l, In l (l_present s) -> l < b.
 Proof.
-  intros Hl Hn. cbn zeta. intro Hp.
+  intros Hl. cbn zeta. intros Hp b e.
   pose proof (lrun_f evs l_fresh l_fresh_f Hl) as [Hup Hnx Hmv Hrd Hcov].
   set (s := fst (lrun l_fresh evs)) in *.
-  unfold lstep. rewrite Hup. cbn [negb]. apply N.eqb_neq in Hn. rewrite Hn.
-  unfold l_alloc. rewrite Hnx. cbn [N.eqb negb snd].
-  exists (l_maxrepo s + 1), (l_maxrepo s + n). split; [reflexivity|].
+  unfold lstep. rewrite Hup. cbn [negb].
+  destruct (n =? 0) eqn:En; [discriminate|]. apply N.eqb_neq in En.
+  unfold alloc_refused. rewrite Hnx. cbn [N.eqb andb].
+  destruct (max_label - l_maxrepo s <? n) eqn:Eg; [discriminate|]. apply N.ltb_ge in Eg.
+  unfold l_alloc. rewrite Hnx. cbn [N.eqb negb snd]. intro H. inversion H; subst. clear H.
+  split; [lia|]. split; [lia|].
   intros l Hin. destruct (Hcov _ Hin) as [H|(v0 & bm & c & H1 & _)]; [lia|]. rewrite Hp in H1. destruct H1.
+Qed.
+
+(* an allocation on the max-label path succeeds exactly when the request is non-empty and fits *)
+Lemma alloc_succeeds s v n : l_up s = true -> l_next s = 0 ->
+  (exists r, snd (lstep s (LAlloc v n)) = Some r) <-> n <> 0 /\ n <= max_label - l_maxrepo s.
+Proof.
+  intros Hup Hnx. unfold lstep. rewrite Hup. cbn [negb]. unfold alloc_refused. rewrite Hnx. cbn [N.eqb andb].
+  destruct (n =? 0) eqn:En.
+  - apply N.eqb_eq in En. split; [intros [r H]; discriminate|intros [H _]; contradiction].
+  - apply N.eqb_neq in En. destruct (max_label - l_maxrepo s <? n) eqn:Eg.
+    + apply N.ltb_lt in Eg. split; [intros [r H]; discriminate|intros [_ H]; lia].
+    + apply N.ltb_ge in Eg. unfold l_alloc. rewrite Hnx. cbn. split; [intros _; split; auto|intros _; eauto].
 Qed.
 
 (* ---- refutations ---- *)
@@ -483,6 +502,7 @@ Lemma req_no_pending q s : l_up s = true -> l_pending s = [] ->
 Proof.
   intros Hup Hp. destruct q as [v n|v bms|v l]; cbn [expand_req].
   - cbn [lrun]. unfold lstep. rewrite Hup. cbn [negb]. destruct (n =? 0); [cbn; auto|].
+    destruct (alloc_refused s n); [cbn; auto|].
     unfold l_alloc. destruct (negb (l_next s =? 0)); cbn; auto.
   - change (LIngest v bms :: ?x) with ([LIngest v bms] ++ x). rewrite run_app.
     set (s1 := fst (lrun s [LIngest v bms])).
@@ -509,10 +529,11 @@ Proof.
 Qed.
 
 (* label_fresh without proviso, for acknowledged requests of the repaired code *)
-Lemma label_fresh_acked qs v n : n <> 0 ->
+Lemma label_fresh_acked qs v n :
   let s := fst (lrun l_fresh (expand_reqs qs)) in
-  exists b e, snd (lstep s (LAlloc v n)) = Some (b, e) /\ forall l, In l (l_present s) -> l < b.
+  forall b e, snd (lstep s (LAlloc v n)) = Some (b, e) ->
+  b <= e /\ e <= max_label /\ forall l, In l (l_present s) -> l < b.
 Proof.
-  intro Hn. apply label_fresh_live; [apply expand_live|exact Hn|].
+  apply label_fresh_live; [apply expand_live|].
   now destruct (reqs_no_pending qs l_fresh eq_refl eq_refl).
 Qed.
